@@ -4,7 +4,7 @@
 set -e
 VERIF="$(cd "$(dirname "$0")" && pwd)"
 VENV="$VERIF/.venv"
-if [ -x "$VENV/bin/python" ] && "$VENV/bin/python" -c "import z3, betfairlightweight" 2>/dev/null; then
+if [ -x "$VENV/bin/python" ] && "$VENV/bin/python" -c "import z3, cvc5, betfairlightweight" 2>/dev/null; then
   exit 0
 fi
 rm -rf "$VENV"
@@ -12,4 +12,6 @@ rm -rf "$VENV"
 SP="$VENV/lib/python3.12/site-packages"
 printf '/venv/lib/python3.12/site-packages\n' > "$SP/_overlay.pth"
 PIP_NO_INDEX=1 "$VENV/bin/python" -m pip install -q --no-index --find-links /opt/veriftools/wheels z3-solver
+# cvc5 answers the string queries of C19 (z3 is the fallback if this wheel cannot be installed)
+PIP_NO_INDEX=1 "$VENV/bin/python" -m pip install -q --no-index --find-links /opt/veriftools/wheels cvc5 || echo "cvc5 wheel not installed: C19 falls back to z3"
 "$VENV/bin/python" -c "import z3, betfairlightweight; print('verif venv ready: z3', z3.get_version_string())"
